@@ -118,4 +118,18 @@ def nvRot (hw : Bool) (g : GName) (n d : Nat) : Option (List GI) :=
     else some [⟨g, [0], n, d⟩]
   else none
 
+/-- range check of the binary rotation command (C16's fix: `RegImmImmCommand` raises ValueError
+when an immediate does not fit its 8-bit field instead of truncating) -/
+def rotEncodable (n d : Nat) : Bool := decide (n ≤ 255) && decide (d ≤ 255)
+
+/-- transpile AND serialise a rotation: `none` = a ValueError from either step. In hardware mode
+the normalised numerator `n·2^(4−d)` may exceed 255; the transpiler still emits it, the
+serialiser rejects it. -/
+def nvRotWire (hw : Bool) (g : GName) (n d : Nat) : Option (List GI) :=
+  (nvRot hw g n d).bind fun l => if l.all (fun i => rotEncodable i.n i.d) then some l else none
+
+/-- `n·π/2^d ≡ n'·π/2^d'  (mod 2π)`, in integers: `n·2^d' ≡ n'·2^d  (mod 2^(d+d'+1))` -/
+def sameAngleMod2Pi (n d n' d' : Nat) : Prop :=
+  (n * 2 ^ d') % 2 ^ (d + d' + 1) = (n' * 2 ^ d) % 2 ^ (d + d' + 1)
+
 end NQ.NV
